@@ -51,7 +51,7 @@ def run(chk):
         # failing edge of the own guard sets the error and returns
         for mk, d, killed in tests:
             t = f.blocks[d]['term']
-            ft = inits.features_test(t.get('fullcond') or t.get('cond'))
+            ft = inits.features_test(guards.expand(f, t.get('fullcond') or t.get('cond'), d))
             su = f.blocks[d]['succ']
             absent = su[1] if ft[1] else su[0]
             okk, _ = cf.walk_paths_must(f, absent, None,
@@ -96,7 +96,7 @@ def run(chk):
         okbase = False
         for bid, blk in g.blocks.items():
             t = blk.get('term')
-            ft = inits.features_test(t.get('fullcond') or t.get('cond')) if t and t['kind'] == 'IfStmt' else None
+            ft = inits.features_test(guards.expand(g, t.get('fullcond') or t.get('cond'), bid)) if t and t['kind'] == 'IfStmt' else None
             if ft and ft[0] == base and all(bid in dom.get(sb, ()) for _, sb, _ in sites):
                 absent = blk['succ'][1] if ft[1] else blk['succ'][0]
                 okbase, _ = cf.walk_paths_must(g, absent, None,
